@@ -10,22 +10,22 @@ Definition row_ok_fx (fxs : fixes) (fl : mfl) (f : facts) : bool :=
     && (if guard_fx fxs fl f then outcome_eqb o (spec_fl fl f) else negb (outcome_eqb o (spec_fl fl f)))
   else true.
 
-(* every combination of landed repairs (fx_lf does not concern this half) *)
+(* every combination of landed repairs (fx_lf and fx_rp do not concern this half) *)
 Definition fixes_of_vec (v : list bool) : fixes :=
   match v with
-  | [a; b; c; d] => {| fx_F := a; fx_fifo := b; fx_cc := c; fx_lf := d |}
+  | [a; b; c; d; e] => {| fx_F := a; fx_fifo := b; fx_cc := c; fx_lf := d; fx_rp := e |}
   | _ => no_fixes
   end.
-Definition vec_of_fixes (x : fixes) : list bool := [fx_F x; fx_fifo x; fx_cc x; fx_lf x].
+Definition vec_of_fixes (x : fixes) : list bool := [fx_F x; fx_fifo x; fx_cc x; fx_lf x; fx_rp x].
 Definition mode_fixes : list fixes :=
-  [ {| fx_F := false; fx_fifo := false; fx_cc := false; fx_lf := false |};
-    {| fx_F := true;  fx_fifo := false; fx_cc := false; fx_lf := false |};
-    {| fx_F := false; fx_fifo := true;  fx_cc := false; fx_lf := false |};
-    {| fx_F := true;  fx_fifo := true;  fx_cc := false; fx_lf := false |};
-    {| fx_F := false; fx_fifo := false; fx_cc := true;  fx_lf := false |};
-    {| fx_F := true;  fx_fifo := false; fx_cc := true;  fx_lf := false |};
-    {| fx_F := false; fx_fifo := true;  fx_cc := true;  fx_lf := false |};
-    {| fx_F := true;  fx_fifo := true;  fx_cc := true;  fx_lf := false |} ].
+  [ {| fx_F := false; fx_fifo := false; fx_cc := false; fx_lf := false; fx_rp := false |};
+    {| fx_F := true;  fx_fifo := false; fx_cc := false; fx_lf := false; fx_rp := false |};
+    {| fx_F := false; fx_fifo := true;  fx_cc := false; fx_lf := false; fx_rp := false |};
+    {| fx_F := true;  fx_fifo := true;  fx_cc := false; fx_lf := false; fx_rp := false |};
+    {| fx_F := false; fx_fifo := false; fx_cc := true;  fx_lf := false; fx_rp := false |};
+    {| fx_F := true;  fx_fifo := false; fx_cc := true;  fx_lf := false; fx_rp := false |};
+    {| fx_F := false; fx_fifo := true;  fx_cc := true;  fx_lf := false; fx_rp := false |};
+    {| fx_F := true;  fx_fifo := true;  fx_cc := true;  fx_lf := false; fx_rp := false |} ].
 
 (* the same row with sat evaluated once and shared by all combinations of repairs *)
 Definition row_s (s : bool) (fxs : fixes) (fl : mfl) (f : facts) : bool :=
@@ -121,15 +121,15 @@ Proof.
   specialize (T _ I2). unfold facts_row in T. rewrite facts_vec_roundtrip in T. exact T.
 Qed.
 
-Lemma row_ok_fx_lf_irrelevant a b c d fl f :
-  row_ok_fx {| fx_F := a; fx_fifo := b; fx_cc := c; fx_lf := d |} fl f
-  = row_ok_fx {| fx_F := a; fx_fifo := b; fx_cc := c; fx_lf := false |} fl f.
+Lemma row_ok_fx_lf_irrelevant a b c d e fl f :
+  row_ok_fx {| fx_F := a; fx_fifo := b; fx_cc := c; fx_lf := d; fx_rp := e |} fl f
+  = row_ok_fx {| fx_F := a; fx_fifo := b; fx_cc := c; fx_lf := false; fx_rp := false |} fl f.
 Proof. reflexivity. Qed.
 
 Lemma rows_ok_fx : forall fxs fl f, valid_fl fl = true -> local_fl fl = true -> row_ok_fx fxs fl f = true.
 Proof.
   intros fxs fl f Hv Hl. pose proof (rows_ok fl f Hv Hl) as R.
-  destruct fxs as [a b c d]. rewrite row_ok_fx_lf_irrelevant, row_ok_fx_row_s.
+  destruct fxs as [a b c d e]. rewrite row_ok_fx_lf_irrelevant, row_ok_fx_row_s.
   unfold row_ok in R. destruct (consistent f); [|reflexivity].
   cbv zeta in R. rewrite forallb_forall in R. apply R.
   destruct a, b, c; simpl; tauto.
